@@ -154,6 +154,13 @@ func (db *RockDB) BitSetV2(ts int64, key []byte, offset int64, on int) (int64, e
 	if err := checkKeySize(key); err != nil {
 		return 0, err
 	}
+	// bitSetToNew checks the key again as a collection key, but by then the old data may
+	// already have been converted and committed, so a refused command would change the data
+	if _, rk, err := extractTableFromRedisKey(key); err != nil {
+		return 0, err
+	} else if err := checkCollKFSize(rk, nil); err != nil {
+		return 0, err
+	}
 
 	wb := db.wb
 	// if new v2 is not exist, merge the old data to the new v2 first
